@@ -84,7 +84,7 @@ def random_local_op(rng, node, state_hint=None, bulk_bias=0.15):
     """one local op line for `node`; ids/patterns/topics drawn from small overlapping pools"""
     r = rng.random()
     if r < 0.16:
-        will = rng.choice(["-", "-", "w/t:bye:1:0"])
+        will = rng.choice(["-", "-", "w/t:627965:1:0"])
         return f"screate {node} {rng.choice(SESS)} {rng.choice(CLIENTS)} {rng.choice(MOUNTS)} {will}"
     if r < 0.26:
         return f"sdelete {node} {rng.choice(SESS)}"
